@@ -504,6 +504,7 @@ def gen_registration(loader, check, replay_on=True):
     # the helper / macro prototypes the argument conversion of macro_expr works from (data file against the prototype table)
     from . import catalog
     catalog.gen_macro_table(loader, check, replay_on)
+    catalog.gen_data_pins(loader, check, replay_on, what=("routines",))
     # compile_sub_routine: parameters in declaration order with their types, return type, registered under its name
     from .c14 import mk_compiler
     check.instances_declared += 1
